@@ -5,8 +5,8 @@ INVARIANT Inv RevRev
 PROPERTY CloneIndependent FailedPushUnchanged
 ACTION_CONSTRAINT Emit
 CONSTANTS
-  MaxLen = 5
-  Rich = FALSE
+  MaxLen = 4
+  Rich = TRUE
   KindsUsed <- KindsMulti
   LayoutsUsed <- LayoutsAll
   OpsUsed <- OpsC02
